@@ -898,9 +898,13 @@ def c03_order(rp):
     lim = bool(rp.get("limit", False))
     ka = {k: _vec(rp["a"].get(k)) for k in ("ranks", "scores")}
     kb = {k: _vec(rp["b"].get(k)) for k in ("ranks", "scores")}
-    a = values(mk_model(name, rp["params"], limit_sigma=lim).rate(mk_game(name, rp["game"]), **ka))
-    b = values(mk_model(name, rp["params"], limit_sigma=lim).rate(mk_game(name, rp["game"]), **kb))
-    return a != b, f"{name}.rate({ka}) -> {str(a)[:90]} ; rate({kb}) -> {str(b)[:90]}"
+    gk = {}
+    if rp.get("gamma") == "custom":
+        # a user callback that depends on every argument it is handed, the rank included
+        gk["gamma"] = lambda c, k, mu, sigma_squared, team, rank, /: (1.0 + 0.25 * rank) * math.sqrt(sigma_squared) / c
+    a = values(mk_model(name, rp["params"], limit_sigma=lim, **gk).rate(mk_game(name, rp["game"]), **ka))
+    b = values(mk_model(name, rp["params"], limit_sigma=lim, **gk).rate(mk_game(name, rp["game"]), **kb))
+    return a != b, f"{name}.rate({ka}) -> {str(a)[:90]} ; rate({kb}) -> {str(b)[:90]}" + (" (model with a rank-dependent gamma callback)" if gk else "")
 
 
 @searcher("c03_order")
